@@ -28,11 +28,14 @@ pub struct GraphLexer<'a> {
     pub skips: Vec<(usize, usize, usize)>,
     /// source reads (offset) performed in the current `next` call, for trace-style checks
     pub steps: usize,
+    /// one call of `next` went round without consuming input (e.g. an empty skip restarting for ever): the real lexer
+    /// would not return; `run` reports the iteration as not ended (a C03 finding)
+    pub stuck: bool,
 }
 
 impl<'a> GraphLexer<'a> {
     pub fn new(g: &'a GraphDump, src: &'a [u8], utf8: bool, partial: bool) -> Self {
-        GraphLexer { g, src, utf8, partial, token_start: 0, token_end: 0, skips: Vec::new(), steps: 0 }
+        GraphLexer { g, src, utf8, partial, token_start: 0, token_end: 0, skips: Vec::new(), steps: 0, stuck: false }
     }
 
     fn find_boundary(&self, mut i: usize) -> usize {
@@ -62,7 +65,8 @@ impl<'a> GraphLexer<'a> {
         loop {
             fuel -= 1;
             if fuel == 0 {
-                panic!("graph interpreter: no progress");
+                self.stuck = true;
+                return None;
             }
             let sd = &g.states[state];
             // fast loop over the self edge
@@ -76,7 +80,7 @@ impl<'a> GraphLexer<'a> {
                 self.token_end = offset;
                 ctx = Some(l);
             } else if let Some(l) = sd.accept {
-                self.token_end = offset - 1;
+                self.token_end = offset.saturating_sub(1);
                 ctx = Some(l);
             }
             self.steps += 1;
@@ -130,6 +134,7 @@ impl<'a> GraphLexer<'a> {
         let bound = 2 * self.src.len() + 4;
         for _ in 0..bound {
             match self.next() {
+                None if self.stuck => return (items, false),
                 None => return (items, true),
                 Some(Ok(l)) => items.push(Item { kind: Some(l), start: self.token_start, end: self.token_end }),
                 Some(Err(())) => items.push(Item { kind: None, start: self.token_start, end: self.token_end }),
